@@ -28,6 +28,7 @@ META = {
     "callees as opaque except for the catalogued ones.",
 }
 META["technique"] += '; unconverted-operand dataflow (sa/rawflow.py: object/Any parameters used in ordering/arithmetic before any conversion); token= argument type lint on LiquidError constructors; non-negative-digits guard for round()'
+META["technique"] += '; correlated-guard facts in the definite-assignment dataflow (no alarm on `if g: v = …` … `if g: use(v)`)'
 
 # (function qualname, site text) -> reason.  One named site each; never a wildcard.
 EXEMPT: dict[tuple[str, str], str] = {
